@@ -147,6 +147,25 @@ def gen_records(rng, n):
     return recs
 
 
+def gen_lattice_records(rng, tier, first_id):
+    """Scale: coloured full lattices of more than a thousand particles with two very coarse bins (one particle has hundreds
+    of neighbours in a bin, a column holds several 1e5 ordered pairs).  Decided by PairHist!HistLat (LatticeLemma)."""
+    import itertools
+    specs = [([11, 11, 11], 10, 23, "one"), ([36, 38], 10, 83, "checker")]
+    if tier != "quick":
+        specs += [([10, 12, 12], 10, 23, "checker"), ([37, 35], 10, 83, "one")]
+    recs = []
+    for n, a, wn, colour in specs:
+        d = len(n)
+        sites = list(itertools.product(*[range(k) for k in n]))
+        rng.shuffle(sites)
+        recs.append({"id": first_id + len(recs), "H": [[(n[i] * a if i == j else 0) for j in range(d)] for i in range(d)],
+                     "ppp": [1] * d, "S": 10, "types": [1 if colour == "one" else 1 + (sum(s) % 2) for s in sites],
+                     "frames": [[[a * x for x in s] for s in sites]], "wn": wn, "sharp": 0,
+                     "lat": {"n": n, "a": a, "colour": colour}})
+    return recs
+
+
 def collect(chk, cases, label):
     results = common.pmap(replay, cases)
     for case, (verdict, clause, detail, nontrivial) in zip(cases, results):
@@ -183,6 +202,7 @@ def run(tier, replay=None):
     # the four models are independent: their TLC runs overlap (quick tier), then the cases are replayed
     rng = random.Random(common.SEED * 7919 + 3)
     recs = gen_records(rng, 64 if tier == "quick" else 800)
+    recs += gen_lattice_records(rng, tier, len(recs) + 1)
     tmp = tempfile.mkdtemp(prefix="verif_c03_")
     try:
         path = os.path.join(tmp, "trace.ndjson")
